@@ -73,6 +73,7 @@ class ServerDriver:
             self.sio.packet_class = type('RecPacket', (base,), {'json': RecJson})
         self.sockets = {}
         self.nested = None
+        self.sd = False
         self._install_handlers()
 
     # ---- scripted handlers ----
@@ -93,6 +94,10 @@ class ServerDriver:
                 ns, sid = args[1], args[2] if len(args) > 2 else None
             for a in b.get('actions', []):
                 await drv._action(a, ns, sid)
+            if drv.sd:
+                # re-entrant scenario (Server/ServerX.v): the handler ends its own client's connection
+                drv.sd = False
+                await aw(drv.sio.disconnect(sid, namespace=ns))
             out = b['outcome']
             if out[0] == 'ret':
                 return out[1]
@@ -115,7 +120,7 @@ class ServerDriver:
         if kind.startswith('method'):
             params = 'self, ' + params if params else 'self'
         env = {'body': body, 'ns_fixed': ns_fixed, 'loop_run': loop_run}
-        if self.mode == 'async' and (self.coro or b.get('actions')):
+        if self.mode == 'async' and (self.coro or b.get('actions') or self.cfg.get('_sd')):
             src = 'async def h(%s):\n    return await body(ns_fixed, %s)\n' % (params, tup)
         else:
             src = 'def h(%s):\n    return loop_run(body(ns_fixed, %s))\n' % (params, tup)
@@ -198,17 +203,27 @@ class ServerDriver:
     def _socket(self, eio):
         drv = self
         base = self.sock_cls
+        msgpack_mode = self.cfg.get('serializer', 'default') == 'msgpack'
+
+        def wire(data):
+            if msgpack_mode and isinstance(data, (bytes, bytearray)):
+                import msgpack
+                try:
+                    return msgpack.loads(data)      # frames are compared as the dict that was packed
+                except Exception:
+                    return data
+            return data
         if self.mode == 'sync':
             class S(base):
                 def send(self, pkt):
                     if not self.closed:
-                        drv.trace.append(('Out', self.sid, pkt.data))
+                        drv.trace.append(('Out', self.sid, wire(pkt.data)))
                     return super().send(pkt)
         else:
             class S(base):
                 async def send(self, pkt):
                     if not self.closed:
-                        drv.trace.append(('Out', self.sid, pkt.data))
+                        drv.trace.append(('Out', self.sid, wire(pkt.data)))
                     return await super().send(pkt)
         s = S(self.sio.eio, eio)
         s.last_ping = None
@@ -231,6 +246,14 @@ class ServerDriver:
                 s = self.sockets.get(o[1])
                 if s is not None and not s.closed:
                     await aw(s.receive(self.eio_packet.Packet(self.eio_packet.MESSAGE, o[2])))
+            elif k == 'msg_sd':
+                s = self.sockets.get(o[1])
+                if s is not None and not s.closed:
+                    self.sd = True
+                    try:
+                        await aw(s.receive(self.eio_packet.Packet(self.eio_packet.MESSAGE, o[2])))
+                    finally:
+                        self.sd = False
             elif k == 'msg_nested':
                 # the message is delivered, and delivered AGAIN from inside the ack callback it triggers
                 s = self.sockets.get(o[1])
@@ -248,7 +271,14 @@ class ServerDriver:
                     sio.eio.sockets.pop(o[1], None)
         except BaseException as e:      # nothing may escape engine.io's containment
             self.trace.append(('Escaped', coqio.exn_name(e)))
-        if k in ('eio_connect', 'msg', 'close', 'msg_nested'):
+        if k in ('msg', 'msg_nested', 'msg_sd') and self.cfg.get('serializer', 'default') == 'msgpack':
+            import msgpack
+            key = o[2] if isinstance(o[2], (bytes, bytearray, str)) else b''
+            try:
+                self.loads_table = [(key, True, msgpack.loads(o[2]))]
+            except BaseException as e:
+                self.loads_table = [(key, False, coqio.exn_name(e))]
+        if k in ('eio_connect', 'msg', 'close', 'msg_nested', 'msg_sd'):
             return self.trace, self.loads_table
         try:
             if k == 'emit':
@@ -313,7 +343,7 @@ def _copy(v):
 def run_history(cfg, ops, mode='sync', coro=False):
     """Returns (list of (effects, table) per op, final dump)."""
     async def main():
-        d = ServerDriver(cfg, mode, coro)
+        d = ServerDriver(dict(cfg, _sd=True) if any(o[0] == 'msg_sd' for o in ops) else cfg, mode, coro)
         out = []
         for o in ops:
             effs, tbl = await d.op(o)
@@ -407,6 +437,12 @@ def c_op(o, table=()):
     if k == 'session_set':
         return '(ApiSessionSet %s %s %s %s)' % (cstr(o[1]), ons(o[2]), cstr(o[3]), pv(o[4]))
     raise ValueError(o)
+
+
+def c_xop(o, table=()):
+    if o[0] == 'msg_sd':
+        return '(EventSD %s %s %s)' % (cstr(o[1]), pv(o[2]), c_table(table))
+    return '(Plain %s)' % c_op(o, table)
 
 
 def c_eff(e):
